@@ -130,7 +130,7 @@ func (e *Engine) checkProperty(verif, prop, tier string, t0 time.Time) int {
 	} else {
 		var keep []string
 		for _, n := range names {
-			if _, ok := e.funcs[n]; !ok && !strings.HasPrefix(n, "bv:") && !strings.HasPrefix(n, "own:") {
+			if _, ok := e.funcs[n]; !ok && !strings.HasPrefix(n, "bv:") && !strings.HasPrefix(n, "own:") && !strings.HasPrefix(n, "model:") {
 				missing = append(missing, n)
 				continue
 			}
@@ -402,6 +402,26 @@ func (e *Engine) sweepRoots() []string {
 			}
 		}
 	}
+	// unexported helpers without a contract that are called from inside the package
+	// are verified where they are inlined, with the arguments they really get
+	called := map[*ssa.Function]bool{}
+	for _, fn := range e.funcs {
+		for _, b := range fn.Blocks {
+			for _, in := range b.Instrs {
+				if ci, ok := in.(ssa.CallInstruction); ok {
+					if _, isGo := in.(*ssa.Go); isGo {
+						continue
+					}
+					if t, ok := ci.Common().Value.(*ssa.Function); ok && !ci.Common().IsInvoke() {
+						if t.Origin() != nil {
+							t = t.Origin()
+						}
+						called[t] = true
+					}
+				}
+			}
+		}
+	}
 	var out []string
 	for _, n := range e.funcNames() {
 		fn := e.funcs[n]
@@ -410,12 +430,15 @@ func (e *Engine) sweepRoots() []string {
 		if fn.Parent() != nil && !modular && !goTargets[fn] {
 			continue // inlined wherever it is called (loop annotations, if any, apply there)
 		}
+		if c == nil && fn.Parent() == nil && !goTargets[fn] && called[fn] && fn.Object() != nil && !fn.Object().Exported() {
+			continue
+		}
 		if strings.HasPrefix(n, "init") {
 			continue
 		}
 		out = append(out, n)
 	}
-	out = append(out, "bv:attrsBitmap", "own:fields")
+	out = append(out, "bv:attrsBitmap", "own:fields", "model:errors")
 	return out
 }
 
